@@ -1,4 +1,689 @@
 package main
 
-func ruleL1(c *Ctx) {}
-func ruleL2(c *Ctx) {}
+// LOCKS: forward must-lockset analysis over SSA with deferred-call replay,
+// callee net-effect summaries and caller-held sets propagated along the
+// static call graph (DESIGN.md A.8).
+
+import (
+	"fmt"
+	"go/token"
+	"go/types"
+	"sort"
+	"strings"
+
+	"golang.org/x/tools/go/ssa"
+)
+
+type lockID struct {
+	Name string // "Adaptation.Mutex", "mux.writeLock", "global:timeoutCfgLock", "once:mux.closeOnce"
+	Mode byte   // 'W' or 'R'
+}
+
+func (l lockID) String() string { return l.Name + ":" + string(l.Mode) }
+
+type lockSet map[lockID]bool
+
+func (s lockSet) clone() lockSet {
+	n := lockSet{}
+	for k := range s {
+		n[k] = true
+	}
+	return n
+}
+
+func (s lockSet) has(name string) bool {
+	return s[lockID{name, 'W'}] || s[lockID{name, 'R'}]
+}
+
+func (s lockSet) String() string {
+	var ks []string
+	for k := range s {
+		ks = append(ks, k.String())
+	}
+	sort.Strings(ks)
+	return "{" + strings.Join(ks, ",") + "}"
+}
+
+func intersect(a, b lockSet) lockSet {
+	if a == nil {
+		return b.clone()
+	}
+	n := lockSet{}
+	for k := range a {
+		if b[k] {
+			n[k] = true
+		}
+	}
+	return n
+}
+
+func equalSets(a, b lockSet) bool {
+	if len(a) != len(b) {
+		return false
+	}
+	for k := range a {
+		if !b[k] {
+			return false
+		}
+	}
+	return true
+}
+
+// lockOp describes a call that is a lock operation.
+type lockOp struct {
+	ID      lockID
+	Acquire bool
+	Recv    ssa.Value // the struct the lock belongs to (nil for globals)
+}
+
+type lockEffect struct {
+	acquires lockSet // held at every exit though not at entry
+	releases lockSet // released on every path though not acquired inside
+}
+
+type lockEdge struct {
+	From, To string
+	At       ssa.Instruction
+	Fn       *ssa.Function
+}
+
+type lockAnalysis struct {
+	m        *Module
+	scope    map[*ssa.Function]bool
+	summary  map[*ssa.Function]*lockEffect
+	inSumm   map[*ssa.Function]bool
+	entry    map[*ssa.Function]lockSet // nil entry = not yet constrained (TOP)
+	root     map[*ssa.Function]bool
+	at       map[ssa.Instruction]lockSet // lockset immediately before the instruction
+	atExit   map[*ssa.Function]lockSet
+	edges    []lockEdge
+	syncCall map[*ssa.Function][]syncSite // closures run synchronously at a call site
+	acquired map[*ssa.Function][]lockAcq
+}
+
+type lockAcq struct {
+	ID lockID
+	At ssa.Instruction
+}
+
+type syncSite struct {
+	At    ssa.Instruction
+	Extra *lockID
+}
+
+// lockOpOf recognises sync.Mutex / sync.RWMutex operations.
+func (la *lockAnalysis) lockOpOf(c *ssa.CallCommon) *lockOp {
+	f := c.StaticCallee()
+	if f == nil || f.Pkg == nil || f.Pkg.Pkg.Path() != "sync" || f.Signature.Recv() == nil {
+		return nil
+	}
+	rn := recvNamed(f)
+	if rn == nil || (rn.Obj().Name() != "Mutex" && rn.Obj().Name() != "RWMutex") {
+		return nil
+	}
+	var op lockOp
+	switch f.Name() {
+	case "Lock":
+		op = lockOp{ID: lockID{Mode: 'W'}, Acquire: true}
+	case "Unlock":
+		op = lockOp{ID: lockID{Mode: 'W'}}
+	case "RLock":
+		op = lockOp{ID: lockID{Mode: 'R'}, Acquire: true}
+	case "RUnlock":
+		op = lockOp{ID: lockID{Mode: 'R'}}
+	default:
+		return nil
+	}
+	if len(c.Args) == 0 {
+		return nil
+	}
+	name, recv := lockName(c.Args[0])
+	if name == "" {
+		return nil
+	}
+	op.ID.Name = name
+	op.Recv = recv
+	return &op
+}
+
+// lockName: abstract identity of the lock whose address is v.
+func lockName(v ssa.Value) (string, ssa.Value) {
+	switch x := v.(type) {
+	case *ssa.FieldAddr:
+		pt, ok := x.X.Type().Underlying().(*types.Pointer)
+		if !ok {
+			return "", nil
+		}
+		n, ok := types.Unalias(pt.Elem()).(*types.Named)
+		if !ok {
+			return "", nil
+		}
+		return n.Obj().Name() + "." + fieldName(x.X.Type(), x.Field), x.X
+	case *ssa.Global:
+		return "global:" + x.Name(), nil
+	}
+	return "", nil
+}
+
+func newLockAnalysis(m *Module, pkgs ...string) *lockAnalysis {
+	la := &lockAnalysis{m: m, scope: map[*ssa.Function]bool{}, summary: map[*ssa.Function]*lockEffect{}, inSumm: map[*ssa.Function]bool{},
+		entry: map[*ssa.Function]lockSet{}, root: map[*ssa.Function]bool{}, at: map[ssa.Instruction]lockSet{}, atExit: map[*ssa.Function]lockSet{},
+		syncCall: map[*ssa.Function][]syncSite{}, acquired: map[*ssa.Function][]lockAcq{}}
+	inPkg := map[string]bool{}
+	for _, p := range pkgs {
+		inPkg[p] = true
+	}
+	var fns []*ssa.Function
+	for _, f := range m.funcs() {
+		if f.Pkg != nil && inPkg[f.Pkg.Pkg.Path()] && f.Synthetic == "" {
+			la.scope[f] = true
+			fns = append(fns, f)
+		}
+	}
+	// closures run synchronously by a library call at a site inherit that site's lockset
+	for _, f := range fns {
+		for _, ci := range calls(f) {
+			if _, isGo := ci.(*ssa.Go); isGo {
+				continue
+			}
+			cal := ci.Common().StaticCallee()
+			if cal == nil {
+				continue
+			}
+			var extra *lockID
+			syncLib := false
+			switch cal.String() {
+			case "sort.Slice", "sort.SliceStable", "sort.Sort", "sort.Stable":
+				syncLib = true
+			case "(*sync.Once).Do":
+				syncLib = true
+				if name, _ := lockName(ci.Common().Args[0]); name != "" {
+					extra = &lockID{"once:" + name, 'W'}
+				}
+			}
+			if o := cal.Origin(); o != nil && o.Pkg != nil && o.Pkg.Pkg.Path() == "slices" && strings.HasPrefix(o.Name(), "Sort") {
+				syncLib = true
+			}
+			if !syncLib {
+				continue
+			}
+			for _, a := range ci.Common().Args {
+				if g := closureFn(a); g != nil && la.scope[g] {
+					la.syncCall[g] = append(la.syncCall[g], syncSite{At: ci, Extra: extra})
+				}
+			}
+		}
+	}
+	// roots: no static caller in scope and not run synchronously, or used as a value elsewhere
+	for _, f := range fns {
+		if len(la.syncCall[f]) > 0 {
+			continue
+		}
+		static := 0
+		for _, cs := range m.callersOf(f) {
+			if _, isGo := cs.Instr.(*ssa.Go); isGo {
+				la.root[f] = true
+				continue
+			}
+			static++
+		}
+		if static == 0 {
+			la.root[f] = true
+		}
+		if f.Parent() == nil && len(m.funcRefs(f)) > 0 {
+			la.root[f] = true // address taken: may be called from anywhere
+		}
+		if f.Parent() != nil && static == 0 {
+			la.root[f] = true
+		}
+		// exported methods and functions are API entry points
+		if f.Parent() == nil && token.IsExported(f.Name()) {
+			la.root[f] = true
+		}
+	}
+	for _, f := range fns {
+		la.summarise(f)
+	}
+	// entry-state fixpoint
+	for _, f := range fns {
+		if la.root[f] {
+			la.entry[f] = lockSet{}
+		}
+	}
+	for iter := 0; iter < 20; iter++ {
+		changed := false
+		newEntry := map[*ssa.Function]lockSet{}
+		la.edges = nil
+		la.acquired = map[*ssa.Function][]lockAcq{}
+		for _, f := range fns {
+			e, ok := la.entry[f]
+			if !ok {
+				continue // unconstrained yet
+			}
+			la.run(f, e, true, func(callee *ssa.Function, st lockSet) {
+				if !la.scope[callee] || la.root[callee] {
+					return
+				}
+				if cur, ok := newEntry[callee]; ok {
+					newEntry[callee] = intersect(cur, st)
+				} else {
+					newEntry[callee] = st.clone()
+				}
+			})
+		}
+		for f, e := range newEntry {
+			old, ok := la.entry[f]
+			if !ok || !equalSets(old, e) {
+				la.entry[f] = e
+				changed = true
+			}
+		}
+		if !changed {
+			break
+		}
+	}
+	return la
+}
+
+func closureFn(v ssa.Value) *ssa.Function {
+	switch x := v.(type) {
+	case *ssa.MakeClosure:
+		f, _ := x.Fn.(*ssa.Function)
+		return f
+	case *ssa.Function:
+		return x
+	case *ssa.MakeInterface:
+		return closureFn(x.X)
+	case *ssa.ChangeType:
+		return closureFn(x.X)
+	}
+	return nil
+}
+
+// summarise computes the net lock effect of f (entry-independent).
+func (la *lockAnalysis) summarise(f *ssa.Function) *lockEffect {
+	if s, ok := la.summary[f]; ok {
+		return s
+	}
+	if la.inSumm[f] || !la.scope[f] {
+		return &lockEffect{lockSet{}, lockSet{}}
+	}
+	la.inSumm[f] = true
+	eff := la.run(f, lockSet{}, false, nil)
+	delete(la.inSumm, f)
+	la.summary[f] = eff
+	return eff
+}
+
+type lstate struct {
+	held     lockSet
+	released lockSet // released although not held (net release of a caller's lock)
+}
+
+func (s lstate) clone() lstate { return lstate{s.held.clone(), s.released.clone()} }
+
+func (la *lockAnalysis) apply(st *lstate, op *lockOp) {
+	if op.Acquire {
+		st.held[op.ID] = true
+		delete(st.released, op.ID)
+		return
+	}
+	if st.held[op.ID] {
+		delete(st.held, op.ID)
+	} else {
+		st.released[op.ID] = true
+	}
+}
+
+func (la *lockAnalysis) applyEffect(st *lstate, e *lockEffect) {
+	for k := range e.releases {
+		if st.held[k] {
+			delete(st.held, k)
+		} else {
+			st.released[k] = true
+		}
+	}
+	for k := range e.acquires {
+		st.held[k] = true
+		delete(st.released, k)
+	}
+}
+
+// run analyses f with the given entry lockset.  When record is set, per-
+// instruction locksets, lock-order edges and callee entry states are recorded.
+func (la *lockAnalysis) run(f *ssa.Function, entry lockSet, record bool, onCall func(*ssa.Function, lockSet)) *lockEffect {
+	if len(f.Blocks) == 0 {
+		return &lockEffect{lockSet{}, lockSet{}}
+	}
+	in := map[*ssa.BasicBlock]*lstate{}
+	e := lstate{entry.clone(), lockSet{}}
+	in[f.Blocks[0]] = &e
+	var exitStates []lstate
+	work := []*ssa.BasicBlock{f.Blocks[0]}
+	inWork := map[*ssa.BasicBlock]bool{f.Blocks[0]: true}
+	// order of defers for replay
+	var defers []*ssa.Defer
+	for _, b := range f.Blocks {
+		for _, i := range b.Instrs {
+			if d, ok := i.(*ssa.Defer); ok {
+				defers = append(defers, d)
+			}
+		}
+	}
+	visits := 0
+	final := map[*ssa.BasicBlock]*lstate{}
+	for len(work) > 0 && visits < 5000 {
+		visits++
+		b := work[0]
+		work = work[1:]
+		inWork[b] = false
+		st := in[b].clone()
+		final[b] = in[b]
+		for _, i := range b.Instrs {
+			la.step(f, i, &st, defers, false, nil)
+		}
+		if isExit(b) {
+			continue
+		}
+		for _, s := range b.Succs {
+			old, ok := in[s]
+			var n lstate
+			if !ok {
+				n = st.clone()
+			} else {
+				n = lstate{intersect(old.held, st.held), intersect(old.released, st.released)}
+				if equalSets(n.held, old.held) && equalSets(n.released, old.released) {
+					continue
+				}
+			}
+			in[s] = &n
+			if !inWork[s] {
+				inWork[s] = true
+				work = append(work, s)
+			}
+		}
+	}
+	// final pass with recording
+	for _, b := range f.Blocks {
+		s0, ok := in[b]
+		if !ok {
+			continue // unreachable
+		}
+		st := s0.clone()
+		for _, i := range b.Instrs {
+			la.step(f, i, &st, defers, record, onCall)
+		}
+		if isExit(b) {
+			exitStates = append(exitStates, st)
+		}
+	}
+	eff := &lockEffect{lockSet{}, lockSet{}}
+	var heldAll, relAll lockSet
+	for _, x := range exitStates {
+		heldAll = intersect(heldAll, x.held)
+		relAll = intersect(relAll, x.released)
+	}
+	for k := range heldAll {
+		if !entry[k] {
+			eff.acquires[k] = true
+		}
+	}
+	for k := range relAll {
+		eff.releases[k] = true
+	}
+	for k := range entry {
+		if heldAll != nil && !heldAll[k] {
+			// released a lock held at entry on some path; must-release only if on all paths
+			allRel := true
+			for _, x := range exitStates {
+				if x.held[k] {
+					allRel = false
+				}
+			}
+			if allRel {
+				eff.releases[k] = true
+			}
+		}
+	}
+	if record {
+		la.atExit[f] = heldAll
+	}
+	return eff
+}
+
+func (la *lockAnalysis) step(f *ssa.Function, i ssa.Instruction, st *lstate, defers []*ssa.Defer, record bool, onCall func(*ssa.Function, lockSet)) {
+	if record {
+		la.at[i] = st.held.clone()
+	}
+	switch x := i.(type) {
+	case *ssa.Call:
+		la.doCall(f, x, x.Common(), st, record, onCall)
+	case *ssa.Go:
+		// new goroutine: callee starts with the empty set (it is a root)
+	case *ssa.Defer:
+		// effect happens at RunDefers
+	case *ssa.RunDefers:
+		// replay registered defers in LIFO order: those that dominate this point
+		for k := len(defers) - 1; k >= 0; k-- {
+			d := defers[k]
+			if domInstr(d, x) {
+				la.doCall(f, d, d.Common(), st, record, onCall)
+			} else if instrCanReach(d, x) {
+				// conditionally registered: a may-release drops the lock from the must set
+				if op := la.lockOpOf(d.Common()); op != nil && !op.Acquire {
+					delete(st.held, op.ID)
+				}
+			}
+		}
+	}
+}
+
+func (la *lockAnalysis) doCall(f *ssa.Function, at ssa.Instruction, c *ssa.CallCommon, st *lstate, record bool, onCall func(*ssa.Function, lockSet)) {
+	if op := la.lockOpOf(c); op != nil {
+		if record && op.Acquire {
+			for h := range st.held {
+				la.edges = append(la.edges, lockEdge{h.Name, op.ID.Name, at, f})
+			}
+			la.acquired[f] = append(la.acquired[f], lockAcq{op.ID, at})
+		}
+		la.apply(st, op)
+		return
+	}
+	cal := la.m.callee(c)
+	if cal == nil {
+		return
+	}
+	// synchronous library calls running a closure
+	if !la.scope[cal] {
+		for _, a := range c.Args {
+			if g := closureFn(a); g != nil && la.scope[g] {
+				for _, ss := range la.syncCall[g] {
+					if ss.At == at {
+						s2 := st.held.clone()
+						if ss.Extra != nil {
+							if record {
+								for h := range st.held {
+									la.edges = append(la.edges, lockEdge{h.Name, ss.Extra.Name, at, f})
+								}
+							}
+							s2[*ss.Extra] = true
+						}
+						if record && onCall != nil {
+							// the closure is not a root: constrain its entry directly
+							la.constrainSync(g, s2)
+						}
+					}
+				}
+			}
+		}
+		return
+	}
+	if record && onCall != nil {
+		onCall(cal, st.held)
+	}
+	la.applyEffect(st, la.summarise(cal))
+}
+
+// constrainSync intersects the entry state of a synchronously-run closure.
+func (la *lockAnalysis) constrainSync(g *ssa.Function, s lockSet) {
+	if la.root[g] {
+		return
+	}
+	if cur, ok := la.entry[g]; ok {
+		n := intersect(cur, s)
+		la.entry[g] = n
+	} else {
+		la.entry[g] = s.clone()
+	}
+}
+
+// heldAt: the must-lockset immediately before instruction i (nil if i was not analysed / unreachable).
+func (la *lockAnalysis) heldAt(i ssa.Instruction) lockSet { return la.at[i] }
+
+func (la *lockAnalysis) holds(i ssa.Instruction, name string, mode byte) bool {
+	s := la.at[i]
+	if s == nil {
+		return false
+	}
+	if mode == 0 {
+		return s.has(name)
+	}
+	return s[lockID{name, mode}]
+}
+
+func (la *lockAnalysis) describe(i ssa.Instruction) string {
+	s := la.at[i]
+	if s == nil {
+		return "(not reached by the lock analysis)"
+	}
+	return s.String()
+}
+
+// ---------------------------------------------------------------- L1 / L2 (C01, C06)
+
+var adaptLocks *lockAnalysis
+
+func adaptationLocks(c *Ctx) *lockAnalysis {
+	if adaptLocks == nil || adaptLocks.m != c.M {
+		adaptLocks = newLockAnalysis(c.M, pkgAdapt)
+	}
+	return adaptLocks
+}
+
+// relayFamily: methods of *plugin that invoke a method of *pluginType (the RPC implementations).
+func relayFamily(m *Module) []*ssa.Function {
+	var out []*ssa.Function
+	for _, f := range m.methodsOf(pkgAdapt, "plugin") {
+		for _, ci := range calls(f) {
+			if g := m.callee(ci.Common()); g != nil {
+				if rn := recvNamed(g); rn != nil && rn.Obj().Name() == "pluginType" && rn.Obj().Pkg().Path() == pkgAdapt && g.Signature.Results().Len() > 0 && !strings.HasPrefix(g.Name(), "is") {
+					out = append(out, f)
+					break
+				}
+			}
+		}
+	}
+	return out
+}
+
+// requestRelays: relays that are called from the request methods' plugin loops
+// (i.e. not configure / synchronize, which run during registration).
+func requestRelays(m *Module) []*ssa.Function {
+	var out []*ssa.Function
+	for _, f := range relayFamily(m) {
+		if len(f.Params) >= 2 {
+			// relays test the subscription mask
+			for _, ci := range calls(f) {
+				if g := m.callee(ci.Common()); g != nil && g.Name() == "IsSet" {
+					out = append(out, f)
+					break
+				}
+			}
+		}
+	}
+	return out
+}
+
+func ruleL1(c *Ctx) {
+	m := c.M
+	c.rule("L1", "every read or write of the active plugin list, and every call of a request relay, happens with the adaptation lock held — in the function itself or in every caller up to an exported method or goroutine root", 20)
+	la := adaptationLocks(c)
+	adT := m.named(pkgAdapt, "Adaptation")
+	ord := map[string]int{}
+	for _, f := range m.funcsInPkg(pkgAdapt) {
+		if f.Synthetic != "" {
+			continue
+		}
+		for _, fa := range m.fieldAddrs(f, adT, "plugins") {
+			base := funcKey(f) + "/plugins"
+			ord[base]++
+			key := fmt.Sprintf("%s#%d", base, ord[base])
+			c.ok("L1", key, fa.Pos(), la.holds(fa, "Adaptation.Mutex", 'W'), fmt.Sprintf("access to Adaptation.plugins in %s is under the adaptation lock", funcKey(f)),
+				"the plugin list is accessed with lockset "+la.describe(fa)+": concurrent requests or registrations can observe or corrupt a half-updated list")
+		}
+	}
+	relays := map[*ssa.Function]bool{}
+	for _, r := range requestRelays(m) {
+		relays[r] = true
+	}
+	for _, f := range m.funcsInPkg(pkgAdapt) {
+		for _, ci := range calls(f) {
+			g := m.callee(ci.Common())
+			if g == nil || !relays[g] {
+				continue
+			}
+			base := funcKey(f) + "/" + g.Name()
+			ord[base]++
+			key := base
+			if ord[base] > 1 {
+				key = fmt.Sprintf("%s#%d", base, ord[base])
+			}
+			c.ok("L1", key, ci.Pos(), la.holds(ci, "Adaptation.Mutex", 'W'), fmt.Sprintf("relay %s is called from %s under the adaptation lock", g.Name(), funcKey(f)),
+				"the relay is called with lockset "+la.describe(ci)+": requests are no longer serialised, plugins can see them in different orders")
+		}
+	}
+}
+
+// ruleL2: the per-request result does not escape the request method.
+func ruleL2(c *Ctx) {
+	m := c.M
+	c.rule("L2", "request isolation: the value returned by a collect*Result constructor is used only locally in the request method (receiver of merge calls and response getters); it is not stored in a field, global, channel, closure or passed to a goroutine", 3)
+	resT := m.named(pkgAdapt, "result")
+	for _, f := range m.funcsInPkg(pkgAdapt) {
+		for _, ci := range calls(f) {
+			call, ok := ci.(*ssa.Call)
+			if !ok {
+				continue
+			}
+			pt, ok := call.Type().(*types.Pointer)
+			if !ok {
+				continue
+			}
+			if n, ok := pt.Elem().(*types.Named); !ok || n.Obj() != resT.Obj() {
+				continue
+			}
+			if rn := recvNamed(f); rn != nil && rn.Obj() == resT.Obj() {
+				continue
+			}
+			if f.Signature.Results().Len() == 1 && types.Identical(f.Signature.Results().At(0).Type(), call.Type()) {
+				// a constructor delegating to another constructor
+				continue
+			}
+			bad := ""
+			for _, r := range *call.Referrers() {
+				switch u := r.(type) {
+				case *ssa.Call:
+					if len(u.Call.Args) > 0 && u.Call.Args[0] == ssa.Value(call) && recvNamed(m.callee(u.Common())) != nil && recvNamed(m.callee(u.Common())).Obj() == resT.Obj() {
+						continue
+					}
+					bad = "passed to " + m.calleeName(u.Common())
+				case *ssa.DebugRef:
+				default:
+					bad = fmt.Sprintf("used by %T at %s", r, c.pos(r.Pos()))
+				}
+			}
+			c.ok("L2", funcKey(f), call.Pos(), bad == "", fmt.Sprintf("the result collected in %s stays local to the request", funcKey(f)),
+				"the per-request result escapes ("+bad+"): concurrent callers could receive results computed from each other's responses")
+		}
+	}
+}
